@@ -171,6 +171,13 @@ def program_stage(run, wits, broken):
             st["behave_like_plain_names"] += 1
         else:
             record(i, "the renamed program behaves differently from the program with plain names (prints %r, plain names print %r)" % (o["stdout"][:80], ref["stdout"][:80]))
+    # the plain-named programs themselves must mean what their source says (typed tree vs emitted Go), otherwise
+    # "behaves like the plain-named program" would compare a defect with itself
+    plain_idx = [i for i in acc if cs[i][1] is None]
+    for i, r in zip(plain_idx, semrun.compare("c19plain", [paths[i] for i in plain_idx], src_stage="tast")):
+        if r["status"] != "agree":
+            record(i, "the plain-named program: typed source and emitted Go %s" % r["status"])
+            cs[i] = (cs[i][0], "plain", "plain", cs[i][3])
     for i, what in sorted(fails.items()):
         tpl, role, nm, t = cs[i]
         roles, nms = role.split("+"), nm.split(",")
